@@ -25,6 +25,7 @@ Definition N_transaction_witness_set : N := 11.
 Definition N_credential : N := 12.
 Definition N_anchor : N := 13.
 Definition N_transaction_input : N := 14.
+Definition N_header_body : N := 15.
 
 (* ---- primitive rules ---- *)
 Definition coin := r_uint.                                              (* coin = uint *)
@@ -222,9 +223,32 @@ Definition transaction_witness_set := RMap [
 Definition transaction := RArr [RRef N_transaction_body; RRef N_transaction_witness_set; RBool;
                                 r_nullable (RRef N_auxiliary_data)].
 
+(* ---- header and block ---- *)
+Definition vkey := RBytes 32 32.                                        (* $vkey *)
+Definition vrf_vkey := RBytes 32 32.                                    (* $vrf_vkey *)
+Definition kes_vkey := RBytes 32 32.                                    (* $kes_vkey *)
+Definition signature := RBytes 64 64.                                   (* $signature *)
+Definition kes_signature := RBytes 448 448.                             (* $kes_signature *)
+Definition vrf_cert := RArr [r_bytes; RBytes 80 80].                    (* $vrf_cert = [bytes, bytes .size 80] *)
+Definition operational_cert := RArr [kes_vkey; r_uint; r_uint; signature].   (* [hot_vkey, sequence_number, kes_period, sigma] *)
+Definition transaction_index := r_uint_size 2.                          (* transaction_index = uint .size 2 *)
+(* header_body (Babbage onwards): one vrf_result, operational_cert and protocol_version as NESTED arrays *)
+Definition header_body := RArr [r_uint; r_uint; r_nullable hash32; vkey; vrf_vkey; vrf_cert; r_uint_size 4; hash32;
+                                operational_cert; protocol_version].
+Definition header := RArr [RRef N_header_body; kes_signature].          (* [header_body, body_signature : $kes_signature] *)
+Definition block := RArr [header; RArrOf 0 (RRef N_transaction_body); RArrOf 0 (RRef N_transaction_witness_set);
+                          RMapOf 0 transaction_index (RRef N_auxiliary_data); RArrOf 0 transaction_index].
+(* pre-Babbage header_body (Shelley .. Alonzo CDDL): two VRF certificates, operational_cert and protocol_version as GROUPS *)
+Definition header_body_tpraos := RArr [r_uint; r_uint; r_nullable hash32; vkey; vrf_vkey; vrf_cert; vrf_cert; r_uint_size 4; hash32;
+                                       kes_vkey; r_uint; r_uint; signature; r_uint; r_uint].
+(* NOT a rule of any era: the single-VRF body with the groups written flat (what the library writes for a Praos header) *)
+Definition header_body_flat_praos := RArr [r_uint; r_uint; r_nullable hash32; vkey; vrf_vkey; vrf_cert; r_uint_size 4; hash32;
+                                           kes_vkey; r_uint; r_uint; signature; r_uint; r_uint].
+
 Definition conway_env : env := [
   (N_native_script, native_script); (N_plutus_data, plutus_data); (N_metadatum, metadatum);
   (N_transaction_output, transaction_output); (N_certificate, certificate); (N_gov_action, gov_action);
   (N_protocol_param_update, protocol_param_update); (N_value, value); (N_auxiliary_data, auxiliary_data);
   (N_transaction_body, transaction_body); (N_transaction_witness_set, transaction_witness_set);
-  (N_credential, credential); (N_anchor, anchor); (N_transaction_input, transaction_input)].
+  (N_credential, credential); (N_anchor, anchor); (N_transaction_input, transaction_input);
+  (N_header_body, header_body)].
